@@ -1,6 +1,7 @@
 #!/bin/sh
 # regenerate _CoqProject (every .v under theories/) and the Makefile when the file list changed
 cd "$(dirname "$0")"
+mkdir -p ../driver/gen
 {
   echo "-Q theories Batchie"
   echo "-arg -w -arg -notation-overridden,-deprecated-hint-without-locality,-extraction-opaque-accessed"
